@@ -195,7 +195,13 @@ def gen_growth(rng, tier="quick"):
             threads[split[i]].append(rng.choice([["enq", "ret", 0], ["sleep", to / 2], ["enq", "sleep", to / 2]]))
     if late_start:
         ctl.append(["start"])
-    return {"family": "growth", "cfg": cfg, "threads": threads}
+    prog = {"family": "growth", "cfg": cfg, "threads": threads}
+    if style in (0, 3) and rng.random() < 0.3:
+        # the first start attempts fail; the pool must grow again afterwards
+        prog["fail_start"] = sorted(set(rng.randrange(1, 4) for _ in range(rng.randint(1, 2))))
+        while sum(1 for o in ctl[:ctl.index(["go"])] if o[0] == "enq") < 3:
+            ctl.insert(1, ["enq", rng.choice(["ret", "ret", "raise"]), 0])
+    return prog
 
 
 def gen_restart(rng, tier="quick"):
@@ -257,12 +263,45 @@ def gen_tiny(rng):
         if rng.random() < 0.4:
             ops.append(rng.choice([task(), ["res", 0, rng.choice([0, to])], ["join", rng.choice([0, to])], ["cb", 0, "ret"]]))
         threads.append(ops)
-    return {"family": "mixed", "cfg": cfg, "threads": threads}
+    prog = {"family": "mixed", "cfg": cfg, "threads": threads}
+    if rng.random() < 0.012:
+        prog["sweep"] = True  # every single pre-emption point of this short program, in the quick tier too
+    return prog
+
+
+def gen_race(rng):
+    """
+    Lifecycle races, always swept: a controlling thread runs three to five of {start, stop, enqueue, join}
+    while a second thread enqueues; executed under every single pre-emption point of the run, so that a window of
+    one statement in start()/stop()/enqueue()/join() is met whatever its position.
+    """
+    mx = rng.choice([1, 1, 2])
+    cfg = {"max": mx, "min": rng.randrange(0, mx + 1), "qsize": 0, "timeout": rng.choice([0.5, 2.0])}
+    to = cfg["timeout"]
+    ctl = []
+    for _ in range(rng.randint(3, 5)):
+        k = rng.random()
+        if k < 0.3:
+            ctl.append(["start"])
+        elif k < 0.6:
+            ctl.append(["stop"])
+        elif k < 0.9:
+            ctl.append(["enq", rng.choice(["ret", "ret", "raise"]), 0])
+        else:
+            ctl.append(["join", rng.choice([0, to])])
+    if not any(o[0] == "start" for o in ctl[:2]):
+        ctl.insert(rng.randrange(2), ["start"])
+    other = [["enq", "ret", 0]]
+    if rng.random() < 0.3:
+        other.append(rng.choice([["enq", "ret", 0], ["res", 0, to], ["join", to]]))
+    return {"family": "mixed", "cfg": cfg, "threads": [ctl, other], "sweep": True}
 
 
 def gen_program(rng, focus=None, tier="quick"):
     pg = {"C09": 0.15, "C10": 0.4, "C11": 0.1}.get(focus, 0.25)
     k = rng.random()
+    if k > 0.997:
+        return gen_race(rng)
     if k < pg:
         return gen_growth(rng, tier)
     if k < pg + 0.2:
@@ -293,8 +332,12 @@ def parse(program, log):
     h.opener_idx = INF
     h.open_all_idx = INF
     h.n = len(log)
+    h.start_failures = []
     for idx, ev in enumerate(log):
         tid, kind = ev[1], ev[2]
+        if kind == "thread.start_failed":
+            h.start_failures.append(idx)
+            continue
         if kind == "op.call":
             ti, oi, name, now = ev[3:7]
             h.ops[(ti, oi)] = {"ti": ti, "oi": oi, "name": name, "call": idx, "ret": INF, "out": None,
@@ -601,9 +644,18 @@ def analyse(program, log, verdict, thread_errors=()):
                 break
 
     # ---- C10: growth / progress ------------------------------------------------
-    if program.get("family") == "growth" and not faulty:
+    # Under injected thread-start failures the growth rule is demanded again once the faults have stopped: every
+    # failing start index has been used up, and the last failure lies before the first dependent task is enqueued.
+    # (A start that fails *for* one of the dependent tasks legitimately leaves it waiting for the next enqueue.)
+    bars = []
+    if program.get("family") == "growth":
         bars = [tid for tid in h.tasks
                 if program["threads"][int(tid[1:].split(".")[0])][int(tid.split(".")[1])][1] == "bar"]
+    faults_over = True
+    if faulty:
+        faults_over = bool(bars) and len(h.start_failures) == len(program["fail_start"]) and \
+            max(h.start_failures) < min(h.tasks[t]["enq_call"] for t in bars)
+    if program.get("family") == "growth" and faults_over:
         k = len(bars)
         needs = set()
         for tid in bars:
@@ -680,6 +732,9 @@ class PoolScenario(object):
             "faults": dict(s.faults), "probes": self.probes(program, h, s),
             "states": self.states(h), "nontrivial": bool(s.nswitch and any(t["begins"] for t in h.tasks.values())),
         }
+        if program.get("sweep"):
+            # a sweep places its pre-emption inside the program proper, not inside the harness's epilogue
+            stats["sweep_until"] = next((e[0] for e in s.log if e[2] == "epilogue"), s.step)
         return s, viol, stats
 
     def probes(self, program, h, s):
@@ -719,6 +774,11 @@ class PoolScenario(object):
             p["dependent_tasks_progressed"] = 1
         if program.get("fail_start") and s.faults.get("thread_start_failure"):
             p["thread_start_failure_fired"] = 1
+            if program.get("family") == "growth" and len(h.start_failures) == len(program["fail_start"]):
+                bars = [t for t in h.tasks
+                        if program["threads"][int(t[1:].split(".")[0])][int(t.split(".")[1])][1] == "bar"]
+                if bars and max(h.start_failures) < min(h.tasks[t]["enq_call"] for t in bars):
+                    p["growth_demanded_after_start_failures"] = 1
         return p
 
     def states(self, h):
